@@ -87,7 +87,10 @@ def call_case(spec):
     except HarnessError as e:
         res = {"harness_error": f"{type(e).__name__}: {e}\n{traceback.format_exc(limit=6)}"}
     except Exception as e:  # an exception escaping run_case is a harness problem by contract
-        res = {"harness_error": f"uncaught {type(e).__name__}: {e}\n{traceback.format_exc(limit=8)}"}
+        try:
+            res = {"harness_error": f"uncaught {type(e).__name__}: {e}\n{traceback.format_exc(limit=8)}"}
+        except Exception:   # the exception cannot print itself
+            res = {"harness_error": f"uncaught {type(e).__name__} (its message cannot be formatted)"}
     res.setdefault("viol", [])
     res.setdefault("nontrivial", True)
     res.setdefault("outcome", "ok" if not res["viol"] else "violation")
